@@ -114,12 +114,12 @@ PROPS = {
               "character, no trailing blank, directories not ending in '.' (N4); paths are built from export names only, joined under the destination, single write site (N5); "
               "each element gets exactly one name recomputed from the raw name (N7); pairing marks keyed by export names (P1); counter loop bounded (T1)." + NOT +
               "UNIQUENESS of paths within a run (depends on the whole sibling multiset; unclaimed clause)."),
-    "C07": _p(["S1", "S2", "S3", "T1", "D1", "D2", "D3", "D4", "L1r"],
+    "C07": _p(["S1", "S2", "S3", "S4p", "T1", "D1", "D2", "D3", "D4", "L1r"],
               "Decides chain-resolution clauses: get_path appends the cursor before advancing to table[cursor].next, leaves exactly at .end, range test `>= len(table)` dominates the "
               "access, bounded counter advances on every back-edge path (S1, T1-COUNTER); out-of-range link stores raise InvalidFatDefinition (S2); concatenation addressing (S3); both "
               "decoders terminate on every table by the VISITED-WALK variant (T1), install links on every exit that is not justified by a malformed-table atom (D1) and only at END words "
               "/ directory-run ends (D3), with the documented constants (D2); the Roland cluster stream the chains are read from has the recorded offset / size "
-              "terms (L1r)." + NOT + "the exhaustive table x start enumeration; the AKAI reserved-run rule beyond D1/D3. Known finding G7."),
+              "terms (L1r); a read spanning several sectors of the list takes them in list order, each exactly once (S4p)." + NOT + "the exhaustive table x start enumeration; the AKAI reserved-run rule beyond D1/D3. Known finding G7."),
     "C08": _p(["S5", "S7", "S3", "S4", "S6", "L2"],
               "Obligations on the 2 base methods and 9 override methods implementing every view kind: read amount = min(end-position, size) (0 if negative), position advances by exactly "
               "that amount, seek = clamp(base(whence)+offset, 0, end), no subclass overrides read/seek/tell/readall (S5); window and reversed translations incl. alignment errors and the "
